@@ -201,8 +201,7 @@ def path_task(payload, decisions):
         tb = "".join(x for x in traceback.format_exception(res.exc) if "ceos_alos2/" in x and "/tests/" not in x)[-600:]
         if payload.get("gen_dir"):
             print("UNDECIDED", tag, repr(res.exc)[:300], tb)
-        sub.not_proved(f"{prop}/{unit}/within-verified-subset", f"{exc_text(res.exc)} {tb}", function=fn,
-                       replay=None)
+        sub.engine_limit(f"{prop}/{unit}/within-verified-subset", f"{exc_text(res.exc)} {tb}", function=fn, group=unit)
         return sub.export(), final
     if payload.get("gen_dir"):
         case = tables.case_of_result(res.extra.get("dump"), res)
@@ -248,7 +247,28 @@ def check_unit(ses, unit, analyses, **kw):
     ses.extra_coverage[f"paths[{unit}]"] = n
     if n == 0:
         ses.undecided(f"{ses.prop}/{unit}/paths", "no path explored")
+    resolve_limits(ses, unit, payload)
     return n
+
+
+STANDIN_TABLE = {"leader": "leader", "volume": "volume", "image10s": "image10s", "image11s": "image11s", "image10q": "image10s",
+                 "image11q": "image11s", "image10": "image10s", "image11": "image11s"}
+
+
+def resolve_limits(ses, unit, payload=None):
+    """bounded stand-in for the paths of `unit` the verifier could not interpret: the unit's record contract evaluated
+    concretely on random well-formed files vs the real reader (native/unitreplay.py)"""
+    tname = STANDIN_TABLE.get(unit)
+    if tname is None or (payload or {}).get("truncation"):
+        return ses.resolve_engine_limits(unit, None, bound_text="")
+    from native import unitreplay
+
+    trials = 120 if ses.tier == "quick" else 1000
+    multi = not unit.endswith("s")
+    return ses.resolve_engine_limits(
+        unit, lambda: unitreplay.check_unit(tname, trials=trials, seed=ses.seed, any_rpc=multi),
+        bound_text=f"{trials} random well-formed files (random counts / lengths / field contents incl. blanks and boundary values"
+                   + (", records_per_chunk from 1 to beyond the line count" if multi else "") + "): real reader vs the record contract")
 
 
 def check_units(ses, units, analyses, **kw):
@@ -266,10 +286,11 @@ def check_units(ses, units, analyses, **kw):
         payload.update(kw)
         payloads.append(payload)
     counts = explore_parallel_multi(ses, "props.records", "path_task", payloads)
-    for unit, n in counts.items():
+    for (unit, n), payload in zip(counts.items(), payloads):
         ses.extra_coverage[f"paths[{unit}]"] = n
         if n == 0:
             ses.undecided(f"{ses.prop}/{unit}/paths", "no path explored")
+        resolve_limits(ses, unit, payload)
     return counts
 
 
